@@ -79,6 +79,25 @@ func genPMT(r *core.Rand, maxStreams int) ref.PMTSpec {
 		i := r.Intn(len(p.Streams))
 		p.Streams[i].Descs = append(p.Streams[i].Descs, fat()...)
 	}
+	if len(p.Streams) > 0 && r.Chance(1, 12) {
+		// more than 255 descriptors on one stream (empty or one-byte bodies)
+		i := r.Intn(len(p.Streams))
+		p.Streams[i].Descs = nil
+		for k := r.Pick(256, 257, 300, 400); k > 0; k-- {
+			d := ref.Desc{Tag: opaqueTags[r.Intn(len(opaqueTags))]}
+			if r.Chance(1, 8) {
+				d.Body = r.Bytes(1)
+			}
+			p.Streams[i].Descs = append(p.Streams[i].Descs, d)
+		}
+	}
+	if len(p.Streams) > 0 && r.Chance(1, 10) && !used[0x1FFF] {
+		// an entry that is all ones in its first three bytes: user-private stream type on PID 0x1FFF
+		i := r.Intn(len(p.Streams))
+		used[p.Streams[i].PID] = false
+		p.Streams[i].Type, p.Streams[i].PID = 0xFF, 0x1FFF
+		used[0x1FFF] = true
+	}
 	if r.Chance(1, 10) {
 		p.ProgDescs = append(p.ProgDescs, fat()...)
 	}
